@@ -82,6 +82,17 @@ fn check_input(acc: &mut Acc, sub: &str, rank: u64, input: &[u8], elisp: bool, c
                         }
                     }
                 }
+                // input that is not valid UTF-8 outside a comment is inside a string, symbol or
+                // character: it must be rejected — or come back as bytes (Emacs unibyte string)
+                // (an input with a ';' may hide the bytes in a comment: not judged)
+                if ctx_name != "comment" && !input.contains(&b';') && std::str::from_utf8(input).is_err() {
+                    let has_bytes = RV::from_value(&v).any(&|x| matches!(x, RV::Bytes(_)));
+                    if has_bytes {
+                        acc.count("ill-formed-input-returned-as-bytes");
+                    } else {
+                        acc.violation(sub, "ill-formed-input-accepted", &format!("ill-formed-input-accepted:{}", ctx_name), rank, w(src), format!("the input is not valid UTF-8 but was accepted as {}", trunc(&RV::from_value(&v).to_string(), 80)), case);
+                    }
+                }
                 acc.outcome(&(std::mem::discriminant(&v), seq_valid));
             }
             Ok(Err(_)) => {
